@@ -13,7 +13,7 @@
    by the reference lexer inside a comment / docstring, the lexer being back in code at the end.
    Nothing here refers to the model of typeshare. *)
 From Coq Require Import List NArith Bool String.
-From TS Require Import Model.Str Spec.Lexers.
+From TS Require Import Model.Str Model.Types Spec.Lexers.
 Import ListNotations.
 Local Open Scope N_scope.
 
@@ -107,6 +107,21 @@ Definition c15_part_safe (l : c15_lang) (p : c15_part) : bool :=
 Definition c15_code_neutral (l : c15_lang) (p : c15_part) : Prop :=
   match p with CPcode s => lex_str_gen (c15_cfg l) LCode s = LCode | CPdoc _ _ _ => True end.
 
+
+(* ---- the doc strings of an IR item (Model/Types.v mirrors rust_types.rs), in source order:
+   type, then members; a struct variant: the variant, then its fields ---- *)
+Definition c15_variant_docs (v : rvariant) : list str :=
+  match v with
+  | VUnit sh | VTuple _ sh => vcomments sh
+  | VAnon fs sh => vcomments sh ++ flat_map fcomments fs
+  end.
+Definition c15_item_docs (it : ritem) : list str :=
+  match it with
+  | ItStruct s => scomments s ++ flat_map fcomments (sfields s)
+  | ItEnum e => ecomments (enum_shared e) ++ flat_map c15_variant_docs (evariants (enum_shared e))
+  | ItAlias a => acomments a
+  | ItConst _ => []
+  end.
 
 (* ---- documentable positions, finding classes ---- *)
 (* the positions of the property's quantifier; an enum is either all-unit or data-carrying (algebraic) *)
